@@ -124,6 +124,7 @@ type zzEnv struct {
 	fe  *zzFrontend
 	rf  int
 	n   int // replicas attached in the pre-state
+	preRO bool // ReadOnly when the operation under check arrived
 }
 
 func zzCtlMode(c *Controller) func(string) string {
